@@ -53,3 +53,16 @@ def plain(v):
         if isinstance(v, t) and not isinstance(v, bool) or (t is bool and type(v) is bool):
             return t(v)
     return v
+
+
+def cursor(h, raw, default=None):
+    """The bit cursor of a raw-packet object as the program itself would read it (`raw.pos`): an instance attribute, a class
+    default, or a property with a backing field."""
+    it = getattr(h, "it", h)
+    from .interp import Raised
+    from .core import Unsupported
+    try:
+        v = it.getattr(raw, "pos", None)
+    except (Raised, Unsupported):
+        return raw.attrs.get("pos", default)
+    return default if v is None else v
